@@ -12,12 +12,12 @@ CLAIMED = {
    note="Kernel only. Trusted: rustc MIR, mirsym models (IndexMap as association list, harness event log stream), z3. Outside: merges and force merges, the mirrored vault file / sqlite rows, encryption (blobs are opaque bytes), both backends.",
    design="DESIGN.md section 3, C02"),
  "C05": dict(
-   text="Bounded model checking of the merge kernel: AutoMerge::merge_patches (provided trait method, from MIR) runs on local and remote suffixes of up to 2 (quick) / 3 (thorough) records each with symbolic timestamps (ties, skew) and symbolic commit ids (any equality pattern across the sides). z3 decides per path: local subset of remote => RewindLocal(remote) unchanged; otherwise PushRemote(p) with p ordered by time, containing every local and remote commit, each exactly once, and nothing else. Counterexamples are replayed natively through a do-nothing AutoMerge implementor.",
+   text="Bounded model checking of the merge kernel: AutoMerge::merge_patches (provided trait method, from MIR) runs on local and remote suffixes of up to 2 (quick) / 3 (thorough, local+remote <= 5) records each with symbolic timestamps (ties, skew) and symbolic commit ids (any equality pattern across the sides). z3 decides per path: local subset of remote => RewindLocal(remote) unchanged; otherwise PushRemote(p) with p ordered by time, containing every local and remote commit, each exactly once, and nothing else. Counterexamples are replayed natively through a do-nothing AutoMerge implementor.",
    note="Kernel only. Trusted: rustc MIR, mirsym models (HashSet as list, stable insertion sort executing the closure's MIR), ideal commit ids, z3. Outside: rewind/patch I/O on client and server, sync orders, three devices, convergence (C04).",
    design="DESIGN.md section 3, C05"),
  "C06": dict(
-   text="Bounded model checking of the file-system event log at two layers, both from the MIR of the current tree. Format layer: the real encoder (<EventRecord as Encodable>::encode) writes k <= 2 (quick) / 3 (thorough) records with symbolic time, commits and payload bytes behind the identity bytes and the real iterator (FormatStream::next_forward / next_back, EventLogRecord::decode, byte_length) reads them back; z3 decides that forward iteration yields exactly the appended records in order, that offsets frame exactly the encoder's bytes, that backward iteration is the mirror image and that byte lengths add up. Operation layer: FileSystemEventLog::{apply_records, rewind, clear/truncate, load_tree, patch_unchecked} run over a model of the file API from a log of symbolic records (commits from a small pool so byte-identical events occur; plain and versioned headers); after every operation the in-memory tree equals the tree a fresh instance loads from the file, record count and order match, and a rewind removes exactly the suffix. Counterexamples are replayed on a real FolderEventLog in a temp directory.",
-   note="File-system backend only. Trusted: rustc MIR, mirsym and its reader/writer and vfs models (atomic file operations, no I/O errors), the ideal-hash rs_merkle model (validated in C08), z3. Outside: the sqlite backend, cross-backend agreement, co-resident logs, advisory locks; that stored commit hashes are SHA-256 of the event bytes (C16 kernel).",
+   text="Bounded model checking of the file-system event log at two layers, both from the MIR of the current tree. Format layer: the real encoder (<EventRecord as Encodable>::encode) writes k <= 2 (quick) / 3 (thorough) records with symbolic time, commits and payload bytes behind the identity bytes and the real iterator (FormatStream::next_forward / next_back, EventLogRecord::decode, byte_length) reads them back; z3 decides that forward iteration yields exactly the appended records in order, that offsets frame exactly the encoder's bytes, that backward iteration is the mirror image and that byte lengths add up. Operation layer: FileSystemEventLog::{apply_records, rewind, clear/truncate, load_tree, patch_unchecked} run over a model of the file API from a log of symbolic records (commits from a small pool so byte-identical events occur; plain and versioned headers); after every operation the in-memory tree equals the tree a fresh instance loads from the file, record count and order match, and a rewind removes exactly the suffix. Counterexamples are replayed on a real FolderEventLog in a temp directory. Database backend: DatabaseEventLog::{load_tree, apply_records, rewind, clear, record_stream} and the event entity (the statements the code builds with sql_query_builder) run from the MIR of sos-database over a model of the sqlite tables holding two co-resident logs with commits from a pool of three; z3 decides that the reloaded tree equals the tree in memory, that this log's rows are the expected ones in order and that the other log's rows are untouched; counterexamples are replayed on a real in-memory sqlite database with the project's migrations.",
+   note="File-system backend, and the sqlite event log at the level of its statements (mirsym/sqlmodel.py: clause texts parsed, rows as lists, transactions as snapshots; sqlite itself is not executed). Trusted: rustc MIR, mirsym and its reader/writer and vfs models (atomic file operations, no I/O errors), the ideal-hash rs_merkle model (validated in C08), z3. Outside: sqlite itself and the other tables, replace_all_events / patch / diff on the database backend, cross-backend agreement, advisory locks; that stored commit hashes are SHA-256 of the event bytes (C16 kernel).",
    design="DESIGN.md section 3, C06"),
  "C12": dict(
    text="Bounded model checking of the reducer/compaction kernel: FolderReducer::{reduce,compact,build}, Vault::{into_event,set_name,flags_mut,insert_entry,...} and the vault codec they call run from the MIR of the current tree on every sequence of <= 2 (quick) / 3 (thorough) event kinds after CreateVault, with symbolic names, flags, meta blobs, ids from a pool of two and entries. z3 decides per path that build(reduce(compact(reduce(L)))) equals build(reduce(L)) on name, flags, meta and the id->entry map and that the compacted log has 1 + #live-secrets events; counterexamples are replayed on a real file-system event log.",
@@ -32,8 +32,8 @@ CLAIMED = {
    note="Bookkeeping kernel only. Trusted: rustc MIR, mirsym models (BTreeMap/HashMap/HashSet as lists, probly-search as a key set), z3. Outside: tokenisation and ranking, queries, the merge replay in folder_sync.rs, the LocalAccount plumbing that drives the index, equality with an index rebuilt from decrypted folders.",
    design="DESIGN.md section 3, C20"),
  "C07": dict(
-   text="Bounded model checking of the refusal paths of the file-system event log: FileSystemEventLog::{patch_checked, rewind, replace_all_events} with the snapshot/rollback code run from the MIR of the current tree over a model of the file API, from a log of k <= 2 (quick) / 3 records with commits from a pool of three (byte-identical events included), against the head proof of an arbitrary other log (symbolic leaves: matching, stale, diverged) and symbolic patches. z3 decides per path: the patch is appended iff the proof is the head of exactly this log; on every refusal (conflict, absent rewind target, wrong replace-all checkpoint, also on an empty log) the file bytes and the tree equal the pre-state, a restart reads the pre-state back and no stray file is left; counterexamples are replayed on a real FolderEventLog in a temp directory.",
-   note="File-system backend only. Trusted: rustc MIR, mirsym, the vfs model (atomic file operations, no I/O errors), the ideal-hash rs_merkle model (validated in C08), z3. Outside: the sqlite implementation, the server-side event_patch / rollback_rewind and the client rewind_local orchestration, folder contents derived from the log.",
+   text="Bounded model checking of the refusal paths of the file-system event log: FileSystemEventLog::{patch_checked, rewind, replace_all_events} with the snapshot/rollback code run from the MIR of the current tree over a model of the file API, from a log of k <= 2 (quick) / 3 records with commits from a pool of three (byte-identical events included), against the head proof of an arbitrary other log (symbolic leaves: matching, stale, diverged) and symbolic patches. z3 decides per path: the patch is appended iff the proof is the head of exactly this log; on every refusal (conflict, absent rewind target, wrong replace-all checkpoint, also on an empty log) the file bytes and the tree equal the pre-state, a restart reads the pre-state back and no stray file is left; counterexamples are replayed on a real FolderEventLog in a temp directory. Database backend: DatabaseEventLog::{replace_all_events, patch_checked} over the table model of mirsym/sqlmodel.py (two co-resident logs) against the head proof of an arbitrary log of 1..3 leaves: accepted iff the checkpoint is the agreed one, every refusal leaves rows and tree unchanged; replayed on a real in-memory sqlite database.",
+   note="File-system backend, and the sqlite event log at the level of its statements (sqlite itself not executed). Trusted: rustc MIR, mirsym, the vfs model (atomic file operations, no I/O errors), the ideal-hash rs_merkle model (validated in C08), z3. Outside: the sqlite implementation, the server-side event_patch / rollback_rewind and the client rewind_local orchestration, folder contents derived from the log.",
    design="DESIGN.md section 3, C07"),
  "C13": dict(
    text="Bounded model checking with the crash point as a variable: apply_records, rewind, clear and replace_all_events of FileSystemEventLog run from the MIR of the current tree over the vfs model; the process dies before the j-th mutating file operation of the call (every j) or an append is torn at a solver-chosen byte offset, then the restart path (fresh instance + load_tree) runs on what is left. Obligation: the restart succeeds and the log equals its state before or after the interrupted operation. Violations are confirmed by writing the predicted disk image and re-opening it with the real code.",
